@@ -166,7 +166,7 @@ func VerifC04SearchDeep() {
 		}
 		ns = append(ns, 63, 64, 65, 100, 127, 128, 129)
 	case 2:
-		ns = []int{255, 256, 257, 511, 512, 513, 1000}
+		ns = []int{255, 256, 257, 511, 512, 513, 1000, 2047, 2048, 2049, 4095, 4096, 4097}
 	case 3:
 		ns = []int{9999, 10000, 10001, 16383, 16384, 16385}
 	}
